@@ -48,6 +48,7 @@ let run_case (c : case) =
     match w with
     | "keys" :: ks -> keys := Array.of_list (L.map z_of_string ks)
     | ["nlists"; n] -> nlists := int_of_string n
+    | "vsign" :: _ -> ()
     | "cmpmode" :: _ -> ()      (* how the driver's comparator scales its result; the model sees only signs *)
     | _ ->
       let key n = let i = int_of_nat n in if i < Array.length !keys then !keys.(i) else BinNums.Z0 in
